@@ -5,8 +5,10 @@
 d=$1; pf=$2; shift 2
 cd /repo || exit 2
 files=$(git apply --numstat "$d/$pf" | awk '{print $3}')
-git apply --check "$d/$pf" || { echo "patch does not apply"; exit 2; }
-git apply "$d/$pf"
+if git apply --check "$d/$pf" 2>/dev/null; then git apply "$d/$pf"; else
+  # the seed was made against a slightly older tree (hook lines added since): apply with context fuzz
+  patch -p1 --fuzz=3 --no-backup-if-mismatch < "$d/$pf" || { echo "patch does not apply"; git checkout -- $files; exit 2; }
+fi
 for p in "$@"; do
   s=$(date +%s)
   (cd /verif && ./check $p --tier quick > "$d/run.$pf.$p.log" 2>&1; rc=$?
